@@ -7,7 +7,7 @@ import SkaModel.Lemmas.IndexWrapper
 namespace Ska.Gen.IW
 open Ska Ska.IW Ska.PyIW
 
-variable {L W : Type}
+variable {C L W : Type}
 
 theorem maskSel_replicate_true {α : Type} (l : List α) (k : Nat) :
     maskSel l (List.replicate k true) = l.take k := by
@@ -64,5 +64,35 @@ theorem merge_eq (u : Bool) (d : Data L W) (idx : List Int) (ay : List L) (aw : 
       | none => simp
       | some kw =>
         cases aw <;> simp [_concat_sw, pure, Except.pure, throw, throwThe, MonadExceptOf.throw]
+
+/-! ## the attribute-storing tail of `fit` -/
+
+/-- `(idx_, y_, sample_weight_)` as the model's training record: present once all three attributes are assigned -/
+def absRec (i : Option (List Int)) (y : Option (List L)) (w : Option (Option (List W))) : Option (Data L W) :=
+  match i, y, w with
+  | some i, some y, some w => some ⟨i, y, w⟩
+  | _, _, _ => none
+
+/-- the model state an object stands for -/
+def absW (o : WObj C L W) : St C L W :=
+  ⟨o.clf_, absRec o.idx_ o.y_ o.sample_weight_, o.base_clf_, absRec o.base_idx_ o.base_y_ o.base_sample_weight_⟩
+
+set_option linter.unusedSimpArgs false in
+/-- **the translated tail of `fit` ends in the state the model's `fit` ends in**: on an object whose `clf_` has just been
+fitted it never raises, and the attributes it leaves stand for `⟨clf_, cur', base classifier, base record⟩` as computed by
+`Ska.IW.fit` (`cur'` = the new record unless the classifier has a native `partial_fit`). -/
+theorem fit_store_abs (native sb : Bool) (o : WObj C L W) (c : C) (idx : List Int) (y : List L) (sw : Option (List W))
+    (hc : o.clf_ = some c) :
+    ∃ o', fit.store native sb o idx y sw = .ok o' ∧
+      absW o' =
+        (let cur' := if native then (absW o).cur else some ⟨idx, y, sw⟩
+         if sb then ⟨some c, cur', some c, if native then (absW o).base else cur'⟩
+         else ⟨some c, cur', (absW o).bclf, (absW o).base⟩) := by
+  obtain ⟨clf, i, yy, w, bc, bi, by', bw⟩ := o
+  simp only at hc
+  subst hc
+  cases native <;> cases sb <;>
+    simp [fit.store, absW, absRec, attr, _copy_sw, bind, Except.bind, pure, Except.pure]
+  all_goals (cases sw <;> simp [_copy_sw, absRec, pure, Except.pure])
 
 end Ska.Gen.IW
